@@ -4,33 +4,13 @@
 import Driver.Text
 import Ezpz.Model.Cli
 import Ezpz.Model.CliMain
+import Ezpz.Model.Fmt
 namespace Ezpz.Driver
 open Ezpz Ezpz.Text Ezpz.Cli
 
-/-- Rust's `{:.2}` for f64: exact value rounded to two decimals, ties to even. -/
-def fmt2 (x : Float) : String :=
-  if x.isNaN then "NaN"
-  else if x.isInf then (if x < 0 then "-inf" else "inf")
-  else
-    let bits := x.toBits.toNat
-    let neg := bits >>> 63 == 1
-    let e := (bits >>> 52) % 2048
-    let f := bits % (2 ^ 52)
-    -- value = m * 2^ex
-    let (m, ex) : Nat × Int := if e == 0 then (f, -1074) else (f + 2 ^ 52, (e : Int) - 1075)
-    -- q = round_half_even(m * 2^ex * 100)
-    let q : Nat :=
-      if ex ≥ 0 then m * 100 * 2 ^ ex.toNat
-      else
-        let d := 2 ^ (-ex).toNat
-        let n := m * 100
-        let q := n / d
-        let r := n % d
-        if 2 * r > d ∨ (2 * r = d ∧ q % 2 = 1) then q + 1 else q
-    let ip := q / 100
-    let fp := q % 100
-    let s := s!"{ip}.{if fp < 10 then "0" else ""}{fp}"
-    if neg then "-" ++ s else s
+/-- Rust's `{:.2}` for f64: exact value rounded to two decimals, ties to even.  The integer core is
+in the model (`Ezpz/Model/Fmt.lean`) and proved correctly rounded in `Ezpz/Proofs/FmtCorrect.lean`. -/
+def fmt2 (x : Float) : String := Ezpz.Cli.fmt2Bits x.toBits.toNat
 
 /-- `C <show:0|1> <nconstraints> <hex text> <status …>` where status is one of
 `read | parse | build | serr <nv> <ne> W <kinds,> | ok <nv> <ne> <iters> <prio> U <idx,> W <kinds,> F n bits…` -/
